@@ -315,7 +315,7 @@ func TestVerifC07Child(t *testing.T) {
 
 	save := func() {
 		for cls, n := range seenClass {
-			stats.M["class."+cls] = n
+			stats.Set("class."+cls, n)
 		}
 
 		stats.Save("c07_stats." + serial + ".json")
@@ -420,7 +420,7 @@ func TestVerifC07Child(t *testing.T) {
 			seenInput[key] = true
 
 			if c07NonTrivial(src) {
-				n := stats.M["distinct_nontrivial"]
+				n := stats.Get("distinct_nontrivial")
 				stats.Inc("distinct_nontrivial")
 
 				if res.outcome == "ok" {
@@ -443,7 +443,7 @@ func TestVerifC07Child(t *testing.T) {
 			}
 		}
 
-		if stats.M["cases"]%200 == 0 {
+		if stats.Get("cases")%200 == 0 {
 			save()
 		}
 	}
